@@ -1,3 +1,4 @@
+import Chartparse.Proofs.ReDispatch
 import Chartparse.Proofs.ReTE
 import Chartparse.Proofs.IntOf
 import Chartparse.Proofs.ReNorm
@@ -90,6 +91,51 @@ theorem C07_te_accept (p t w q : Str) (hp : AllIn .space p) (ht : AllIn .digit t
     (hw : ∀ c ∈ w, CSet.space.test c = false) (hq : AllIn .space q) :
     Gen.teRe.matchGroups (p ++ (t ++ ([32, 61, 32, 69, 32] ++ (w ++ q)))) = some [(2, w), (1, t)] := by
   rw [matchGroups_of_norm_eq gen_te_is_template]; exact Chartparse.Rx.te_accept p t w q hp ht ht0 hw hq
+
+/-- **C07, named rejection**: `<tick> = S 64 …` (and every `S <k> …` with `k ≠ 2`-prefix) never produces a star-power
+    phrase: the shipped recogniser's literal is `S 2 ` -/
+theorem C07_S64_rejected (p t rest : Str) (hp : AllIn .space p) (ht : AllIn .digit t) (ht0 : t ≠ []) :
+    Gen.spRe.matchGroups (p ++ (t ++ ([32, 61, 32, 83, 32, 54, 52] ++ rest))) = none := by
+  rw [matchGroups_of_norm_eq gen_sp_is_template]
+  unfold spT
+  have := ev_reject [83, 32, 50, 32] (digitsTail 2) p t ([83, 32, 54, 52] ++ rest) hp ht ht0 (by
+    rintro ⟨r, hr⟩; simp at hr)
+  simpa using this
+
+/-- **C07, named rejection**: `<tick> = N 8 …` (any index character outside `0..7`) never produces a note datum -/
+theorem C07_N8_rejected (p t rest : Str) (c : Nat) (hp : AllIn .space p) (ht : AllIn .digit t) (ht0 : t ≠ [])
+    (hc : c < 48 ∨ 55 < c) :
+    Gen.noteRe.matchGroups (p ++ (t ++ ([32, 61, 32, 78, 32] ++ (c :: rest)))) = none := by
+  cases h : Gen.noteRe.matchGroups (p ++ (t ++ ([32, 61, 32, 78, 32] ++ (c :: rest)))) with
+  | none => rfl
+  | some caps =>
+    exfalso
+    obtain ⟨p', t', i, l, q, hs, hp', ht', ht0', hi, _⟩ := C07_note_sound _ _ h
+    obtain ⟨d, t1, rfl⟩ := List.exists_cons_of_ne_nil ht0
+    obtain ⟨d', t1', rfl⟩ := List.exists_cons_of_ne_nil ht0'
+    have hd : CSet.space.test d = false := digit_not_space (ht d (by simp))
+    have hd' : CSet.space.test d' = false := digit_not_space (ht' d' (by simp))
+    simp only [List.cons_append] at hs
+    obtain ⟨_, e2⟩ := run_unique .space p p' d d' _ _ hp hp' hd hd' hs
+    have e3 : (d :: t1) ++ 32 :: (61 :: 32 :: 78 :: 32 :: c :: rest) = (d' :: t1') ++ 32 :: (61 :: 32 :: 78 :: 32 :: i :: 32 :: (l ++ q)) := by
+      simpa using e2
+    obtain ⟨_, e4⟩ := run_unique .digit (d :: t1) (d' :: t1') 32 32 _ _ ht ht' digit_ne_space32 digit_ne_space32 e3
+    simp at e4
+    omega
+
+/-- **C07, cross-kind rejection**: a line whose letter after ` = ` differs from a recogniser's never matches it: N lines
+    are not star power or track events, S lines not notes, B / TS / A lines none of the three -/
+theorem C07_other_letter_rejected (b : Nat) (lit' rest p t : Str) (hp : AllIn .space p) (ht : AllIn .digit t) (ht0 : t ≠ []) :
+    (b ≠ 78 → Gen.noteRe.matchGroups (p ++ (t ++ (32 :: 61 :: 32 :: (b :: lit') ++ rest))) = none) ∧
+    (b ≠ 83 → Gen.spRe.matchGroups (p ++ (t ++ (32 :: 61 :: 32 :: (b :: lit') ++ rest))) = none) ∧
+    (b ≠ 69 → Gen.teRe.matchGroups (p ++ (t ++ (32 :: 61 :: 32 :: (b :: lit') ++ rest))) = none) := by
+  refine ⟨fun hb => ?_, fun hb => ?_, fun hb => ?_⟩
+  · rw [matchGroups_of_norm_eq (gen_note_is_template.trans noteEv_norm.symm)]
+    exact ev_reject_other_letter 78 b _ lit' _ p t rest hp ht ht0 (Ne.symm hb)
+  · rw [matchGroups_of_norm_eq gen_sp_is_template]
+    exact ev_reject_other_letter 83 b _ lit' _ p t rest hp ht ht0 (Ne.symm hb)
+  · rw [matchGroups_of_norm_eq (gen_te_is_template.trans teEv_norm.symm)]
+    exact ev_reject_other_letter 69 b _ lit' _ p t rest hp ht ht0 (Ne.symm hb)
 
 /-- an ASCII index character decodes to its digit value: `N 0 … N 7` are the indices 0..7 -/
 theorem C07_index_value : (List.range 8).all (fun d => intOf [48 + d] == d) = true := by decide
